@@ -433,6 +433,18 @@ class BaseOperationRecorder:
         raise NotImplementedError
 
 
+def _decode_for_log(payload):
+    """
+    Return the payload as a unicode string for logging. Byte strings are
+    decoded as UTF-8 without ever failing: the payload may be cut in the middle
+    of a multi-byte character by the maximum log length, or may be ill-formed
+    data received from a server, and logging must not raise for that.
+    """
+    if isinstance(payload, bytes):
+        return payload.decode('utf-8', errors='replace')
+    return payload
+
+
 class LogOperationRecorder(BaseOperationRecorder):
     """
     A recorder that logs certain aspects of the WBEM operations driven by
@@ -754,10 +766,10 @@ class LogOperationRecorder(BaseOperationRecorder):
             if self.http_detail_level == 'summary':
                 upayload = ""
             elif self.http_maxlen and (len(payload) > self.http_maxlen):
-                upayload = (_ensure_unicode(payload[:self.http_maxlen]) +
+                upayload = (_decode_for_log(payload[:self.http_maxlen]) +
                             '...')
             else:
-                upayload = _ensure_unicode(payload)
+                upayload = _decode_for_log(payload)
             upayload = repr(upayload)
             if upayload.startswith("u'"):
                 upayload = upayload[1:]
